@@ -131,6 +131,30 @@ func (c *c13Conn) WriteTo(p []byte, a net.Addr) (int, error) {
 	return len(p), nil
 }
 
+func (c *c13Conn) setWErr(e int) {
+	c.mu.Lock()
+	c.nextWErr = e
+	c.mu.Unlock()
+}
+
+func (c *c13Conn) nWrites() int {
+	c.mu.Lock()
+	defer c.mu.Unlock()
+	return len(c.wlog)
+}
+
+func (c *c13Conn) write(i int) c13Write {
+	c.mu.Lock()
+	defer c.mu.Unlock()
+	return c.wlog[i]
+}
+
+func (c *c13Conn) nConsumed() int {
+	c.mu.Lock()
+	defer c.mu.Unlock()
+	return c.consumed
+}
+
 func (c *c13Conn) Close() error                     { return nil }
 func (c *c13Conn) LocalAddr() net.Addr              { return c13Addr(9) }
 func (c *c13Conn) SetDeadline(time.Time) error      { return nil }
@@ -183,6 +207,7 @@ type c13Case struct {
 	Rseed int64     `json:"rseed"`
 	G     int       `json:"g"`
 	Iters int       `json:"iters"`
+	Werr  int       `json:"werr"` // conc: every Werr-th underlying write fails (0 = none); the writer retries the packet
 }
 
 // the specification's keystream, computed without the code under test
@@ -221,6 +246,27 @@ func c13Wrap(conn net.PacketConn, psk []byte, seed int64) (net.PacketConn, error
 	return w, nil
 }
 
+// the wrapper's struct behind the net.PacketConn returned by the constructor
+func c13Inner(w net.PacketConn) *obfsPacketConn {
+	switch x := w.(type) {
+	case *obfsPacketConn:
+		return x
+	case *obfsPacketConnUDP:
+		return x.obfsPacketConn
+	}
+	return nil
+}
+
+// c13Held: is the mutex held although no call is in progress on the wrapper (white-box observation,
+// compared with the lock state of the model)
+func c13Held(m *sync.Mutex) bool {
+	if m.TryLock() {
+		m.Unlock()
+		return false
+	}
+	return true
+}
+
 type c13Fail struct{ why []string }
 
 func (f *c13Fail) add(format string, a ...any) {
@@ -237,6 +283,63 @@ func (f *c13Fail) put(res map[string]any) {
 			s += "; " + w
 		}
 		res["why"] = s
+	}
+}
+
+
+// ---- watchdog: a call into the code under test that never returns (a mutex left locked on some
+// return path, a lost wake-up) must become a verdict with the case as the replay, not a hang of the
+// whole test binary.  Every call of the wrapper in the sequential cases and every whole case runs in
+// its own goroutine with a real-time bound; on expiry the goroutine is abandoned (it owns nothing the
+// harness touches afterwards) and the harness goes on with a fresh wrapped conn.  The first expiries
+// wait the full bound; once several calls have been seen stuck in this run the bound shrinks (the
+// remaining expiries only add witnesses of a defect that is already established).
+
+var c13Expired atomic.Int64
+
+func c13Bound(full time.Duration) time.Duration {
+	if v := os.Getenv("VERIF_C13_WATCHDOG_MS"); v != "" {
+		if ms, err := strconv.Atoi(v); err == nil && ms > 0 {
+			full = time.Duration(ms) * time.Millisecond
+		}
+	}
+	if c13Expired.Load() >= 3 {
+		return max(full/50, 50*time.Millisecond)
+	}
+	return full
+}
+
+const c13CallBound = 5 * time.Second
+const c13CaseBound = 150 * time.Second
+
+// c13Timed runs fn in a goroutine; false = fn did not return within the bound (fn is abandoned).
+// A panic inside fn is re-raised in the caller's goroutine (so vCatch sees it).
+func c13Timed(bound time.Duration, fn func()) (returned bool, waited time.Duration) {
+	type fin struct {
+		panicked bool
+		val      any
+	}
+	done := make(chan fin, 1)
+	go func() {
+		defer func() {
+			if r := recover(); r != nil {
+				done <- fin{true, r}
+			}
+		}()
+		fn()
+		done <- fin{}
+	}()
+	tm := time.NewTimer(bound)
+	defer tm.Stop()
+	select {
+	case x := <-done:
+		if x.panicked {
+			panic(x.val)
+		}
+		return true, 0
+	case <-tm.C:
+		c13Expired.Add(1)
+		return false, bound
 	}
 }
 
@@ -258,24 +361,34 @@ func TestVerifC13(t *testing.T) {
 		res := map[string]any{"i": i, "k": c.K}
 		f := &c13Fail{}
 		rs := seed*1000003 + int64(i) + 1
-		panicked, msg := vCatch(func() {
-			switch c.K {
-			case "key":
-				c13Key(c, res, f)
-			case "obf":
-				c13Obf(c, res, f, rs)
-			case "deobf":
-				c13Deobf(c, res, f)
-			case "st":
-				c13Stream(c, res, f, rs)
-			case "conc":
-				c13Conc(c, res, f, rs)
-			case "hammer":
-				c13Hammer(c, res, f, rs)
-			default:
-				t.Fatalf("unknown case kind %q", c.K)
-			}
+		var panicked bool
+		var msg string
+		returned, waited := c13Timed(c13Bound(c13CaseBound), func() {
+			panicked, msg = vCatch(func() {
+				switch c.K {
+				case "key":
+					c13Key(c, res, f)
+				case "obf":
+					c13Obf(c, res, f, rs)
+				case "deobf":
+					c13Deobf(c, res, f)
+				case "st":
+					c13Stream(c, res, f, rs)
+				case "conc":
+					c13Conc(c, res, f, rs)
+				case "hammer":
+					c13Hammer(c, res, f, rs)
+				default:
+					panic(fmt.Sprintf("unknown case kind %q", c.K))
+				}
+			})
 		})
+		if !returned {
+			// the abandoned goroutine still owns res and f: report on fresh ones
+			res = map[string]any{"i": i, "k": c.K, "stuck": true}
+			f = &c13Fail{}
+			f.add("case did not finish within %s: a call into the wrapper never returned (deadlock)", waited)
+		}
 		if panicked {
 			res["panic"] = msg
 			f.add("panic: %s", msg)
@@ -429,20 +542,62 @@ func c13Stream(c c13Case, res map[string]any, f *c13Fail, rs int64) {
 	}
 	var evs []c13Ev
 	writes := []map[string]any{}
+	nW, lastErrW, lastErrCode := 0, -1, 0
+	wlocks := []bool{} // per returned WriteTo: writeMutex found held afterwards
+	rlocks := []bool{} // per returned ReadFrom: readMutex found held afterwards
 	for _, it := range c.Items {
 		d := it.D.bytes()
 		switch it.T {
 		case "w":
 			d0 := append([]byte{}, d...)
-			ua.nextWErr = it.Err
-			before := len(ua.wlog)
-			n, werr := a.WriteTo(d, c13Addr(it.Addr))
-			if len(ua.wlog) != before+1 {
-				f.add("WriteTo made %d underlying writes", len(ua.wlog)-before)
+			ua.setWErr(it.Err)
+			before := ua.nWrites()
+			var n int
+			var werr error
+			wa := a
+			if returned, waited := c13Timed(c13Bound(c13CallBound), func() { n, werr = wa.WriteTo(d, c13Addr(it.Addr)) }); !returned {
+				// the abandoned call may hold the old wrapper's locks for ever: go on with a fresh wrapper
+				// over a fresh underlying conn (the stuck call keeps the old one) delivering to the same peer
+				if lastErrW >= 0 {
+					f.add("WriteTo did not return within %s after an earlier underlying write error (write #%d, %d bytes; underlying error %d at write #%d)",
+						waited, nW, len(d0), lastErrCode, lastErrW)
+				} else {
+					f.add("WriteTo did not return within %s (write #%d, %d bytes)", waited, nW, len(d0))
+				}
+				writes = append(writes, map[string]any{"wire": "", "n": -1, "err": 997, "stuck": true})
+				wlocks = append(wlocks, true)
+				nW++
+				ua = &c13Conn{peer: ub}
+				ca = ua
+				if c.UDP {
+					ca = c13ConnUDP{ua}
+				}
+				if a, err = c13Wrap(ca, psk, rs+int64(1000*nW)); err != nil {
+					f.add("wrapper refused a %d-byte key", len(psk))
+					return
+				}
+				continue
+			}
+			nW++
+			if it.Err != 0 {
+				lastErrW, lastErrCode = nW-1, it.Err
+			}
+			if in := c13Inner(a); in != nil {
+				held := c13Held(&in.writeMutex)
+				wlocks = append(wlocks, held)
+				if held {
+					f.add("writeMutex is still held after WriteTo returned (write #%d, n=%d err=%d): every later WriteTo on this socket blocks", nW-1, n, c13Code(werr))
+				}
+				if c13Held(&in.readMutex) {
+					f.add("readMutex is held after WriteTo returned (write #%d) with no ReadFrom in progress", nW-1)
+				}
+			}
+			if ua.nWrites() != before+1 {
+				f.add("WriteTo made %d underlying writes", ua.nWrites()-before)
 				writes = append(writes, map[string]any{"wire": "", "n": n, "err": c13Code(werr)})
 				continue
 			}
-			w := ua.wlog[before]
+			w := ua.write(before)
 			writes = append(writes, map[string]any{"wire": vHex(w.wire), "n": n, "err": c13Code(werr)})
 			if !bytes.Equal(d, d0) {
 				f.add("WriteTo modified the caller's packet")
@@ -473,7 +628,9 @@ func c13Stream(c c13Case, res map[string]any, f *c13Fail, rs int64) {
 			}
 			evs = append(evs, c13Ev{data: w.wire, addr: it.Addr, payload: known})
 		case "raw":
+			ub.mu.Lock()
 			ub.in = append(ub.in, c13Pkt{data: d, addr: it.Addr, err: it.Err})
+			ub.mu.Unlock()
 			e := c13Ev{data: d, addr: it.Addr, err: it.Err}
 			if it.Exp != nil {
 				e.payload = vUnhex(*it.Exp)
@@ -483,18 +640,37 @@ func c13Stream(c c13Case, res map[string]any, f *c13Fail, rs int64) {
 	}
 	res["writes"] = writes
 	reads := []map[string]any{}
+	stuckRead := false
 	buf := c13Filled(c.Plen)
 	var attributed []int
 	for k := 0; k <= len(evs); k++ {
 		for i := range buf {
 			buf[i] = 0xee
 		}
-		n, addr, rerr := b.ReadFrom(buf)
+		var n int
+		var addr net.Addr
+		var rerr error
+		rb := b
+		if returned, waited := c13Timed(c13Bound(c13CallBound), func() { n, addr, rerr = rb.ReadFrom(buf) }); !returned {
+			// (the underlying fake never blocks: an empty queue is the "drained" error)
+			f.add("ReadFrom did not return within %s (read #%d, %d events delivered, %d consumed)", waited, len(reads), len(evs), ub.nConsumed())
+			stuckRead = true
+			break
+		}
 		code := c13Code(rerr)
+		if in := c13Inner(b); in != nil {
+			held := c13Held(&in.readMutex)
+			if code != c13Drained {
+				rlocks = append(rlocks, held)
+			}
+			if held {
+				f.add("readMutex is still held after ReadFrom returned (read #%d, n=%d err=%d): every later ReadFrom on this socket blocks", len(reads), n, code)
+			}
+		}
 		if code == c13Drained {
 			break
 		}
-		ev := ub.consumed - 1
+		ev := ub.nConsumed() - 1
 		if n < 0 || n > len(buf) {
 			f.add("ReadFrom returned n=%d for a %d-byte buffer", n, len(buf))
 			break
@@ -536,6 +712,8 @@ func c13Stream(c c13Case, res map[string]any, f *c13Fail, rs int64) {
 		}
 	}
 	res["reads"] = reads
+	res["wlocks"] = wlocks
+	res["rlocks"] = rlocks
 	// every valid packet that fits the caller's buffer surfaces exactly once, in order
 	ai := 0
 	for idx, e := range evs {
@@ -554,8 +732,12 @@ func c13Stream(c c13Case, res map[string]any, f *c13Fail, rs int64) {
 		}
 	}
 	bl := []int{}
-	for l := range ub.bufLens {
-		bl = append(bl, l)
+	if !stuckRead {
+		ub.mu.Lock()
+		for l := range ub.bufLens {
+			bl = append(bl, l)
+		}
+		ub.mu.Unlock()
 	}
 	sort.Ints(bl)
 	res["readbuf"] = bl
@@ -571,6 +753,12 @@ type c13Chan struct {
 	popped atomic.Int64
 	mu     sync.Mutex
 	wlog   [][]byte
+	// scripted faults: every failEvery-th underlying write (counted per socket) fails with failCode and
+	// delivers nothing
+	failEvery int64
+	failCode  int
+	nwrites   atomic.Int64
+	nfailed   atomic.Int64
 }
 
 func (c *c13Chan) push(p c13Pkt) {
@@ -590,6 +778,10 @@ func (c *c13Chan) ReadFrom(p []byte) (int, net.Addr, error) {
 }
 
 func (c *c13Chan) WriteTo(p []byte, a net.Addr) (int, error) {
+	if k := c.nwrites.Add(1); c.failEvery > 0 && k%c.failEvery == 0 {
+		c.nfailed.Add(1)
+		return 0, &c13Err{c.failCode}
+	}
 	w := append([]byte{}, p...)
 	c.mu.Lock()
 	c.wlog = append(c.wlog, w)
@@ -614,7 +806,7 @@ func c13Conc(c c13Case, res map[string]any, f *c13Fail, rs int64) {
 	total := c.W*c.Per + c.Junk + 16
 	u := [2]*c13Chan{}
 	for s := 0; s < 2; s++ {
-		u[s] = &c13Chan{ch: make(chan c13Pkt, total), done: make(chan struct{})}
+		u[s] = &c13Chan{ch: make(chan c13Pkt, total), done: make(chan struct{}), failEvery: int64(c.Werr), failCode: 31 + s}
 	}
 	u[0].peer, u[1].peer = u[1], u[0]
 	var wr [2]net.PacketConn
@@ -653,7 +845,7 @@ func c13Conc(c c13Case, res map[string]any, f *c13Fail, rs int64) {
 			}(s)
 		}
 	}
-	var badN atomic.Int64
+	var badN, badErr, completed atomic.Int64
 	for s := 0; s < 2; s++ {
 		for w := 0; w < c.W; w++ {
 			wwg.Add(1)
@@ -661,9 +853,21 @@ func c13Conc(c c13Case, res map[string]any, f *c13Fail, rs int64) {
 				defer wwg.Done()
 				for k := 0; k < c.Per; k++ {
 					p := c13ConcPayload(s, w, k, c.Lens)
-					n, err := wr[s].WriteTo(p, c13Addr(1000+w))
-					if err != nil || n != len(p) {
-						badN.Add(1)
+					for try := 0; ; try++ {
+						n, err := wr[s].WriteTo(p, c13Addr(1000+w))
+						completed.Add(1)
+						if err != nil && c.Werr > 0 && try < 8 {
+							// a scripted fault of the socket below: it must surface as (0, that error), and the
+							// packet is written again (as QUIC does after a failed send)
+							if n != 0 || c13Code(err) != 31+s {
+								badErr.Add(1)
+							}
+							continue
+						}
+						if err != nil || n != len(p) {
+							badN.Add(1)
+						}
+						break
 					}
 				}
 			}(s, w)
@@ -679,8 +883,50 @@ func c13Conc(c c13Case, res map[string]any, f *c13Fail, rs int64) {
 			}
 		}(s)
 	}
-	wwg.Wait()
+	// wait for the writers, watching their progress: no WriteTo completing for a whole bound while
+	// writers are still at work = they are stuck (abandoned: they touch nothing that is read below
+	// except through atomics and locks)
+	wdone := make(chan struct{})
+	go func() { wwg.Wait(); close(wdone) }()
+	stuck := false
+	{
+		bound := c13Bound(c13CallBound)
+		last, lastAt := completed.Load(), time.Now()
+		tick := time.NewTicker(20 * time.Millisecond)
+	waitW:
+		for {
+			select {
+			case <-wdone:
+				break waitW
+			case <-tick.C:
+				if now := completed.Load(); now != last {
+					last, lastAt = now, time.Now()
+				} else if time.Since(lastAt) > bound {
+					stuck = true
+					c13Expired.Add(1)
+					nf := u[0].nfailed.Load() + u[1].nfailed.Load()
+					if nf > 0 {
+						f.add("concurrent WriteTo calls made no progress for %s after %d underlying write error(s) (%d calls had returned): WriteTo did not return", bound, nf, last)
+					} else {
+						f.add("concurrent WriteTo calls made no progress for %s (%d calls had returned): WriteTo did not return", bound, last)
+					}
+					break waitW
+				}
+			}
+		}
+		tick.Stop()
+	}
+	res["werrs"] = u[0].nfailed.Load() + u[1].nfailed.Load()
+	if c.Werr > 0 && !stuck && u[0].nfailed.Load()+u[1].nfailed.Load() == 0 {
+		f.add("harness: no underlying write error was injected (werr=%d)", c.Werr)
+	}
+	if badErr.Load() != 0 {
+		f.add("%d underlying write errors did not surface as (0, that error) from a concurrent WriteTo", badErr.Load())
+	}
 	deadline := time.Now().Add(20 * time.Second)
+	if stuck {
+		deadline = time.Now().Add(200 * time.Millisecond)
+	}
 	for s := 0; s < 2; s++ {
 		for u[s].popped.Load() != u[s].pushed.Load() && time.Now().Before(deadline) {
 			time.Sleep(200 * time.Microsecond)
